@@ -349,12 +349,15 @@ func (c *channel) sendToTransport(ctx context.Context, e envelope, action string
 	if e == nil || reflect.ValueOf(e).IsNil() {
 		panic(fmt.Errorf("%v: envelope cannot be nil", action))
 	}
+	// The session state is checked while holding the send mutex, which is also held for
+	// sending the session envelopes that start and end the established state, so that no
+	// envelope is written before the first or after the latter.
+	c.sendMu.Lock()
+	defer c.sendMu.Unlock()
+
 	if err := c.ensureEstablished(action); err != nil {
 		return err
 	}
-
-	c.sendMu.Lock()
-	defer c.sendMu.Unlock()
 
 	if err := c.transport.Send(ctx, e); err != nil {
 		return fmt.Errorf("%v: %w", action, err)
